@@ -33,6 +33,9 @@ pub enum Fault {
     Double(Box<Fault>, Box<Fault>),
     /// The process is killed right before (`after` false) or right after mutating call `at`.
     Kill { at: usize, after: bool },
+    /// The reader of standard output leaves once the first status line has been read
+    /// (`lace compile ... | head -1`): every later print fails.
+    StdoutGone,
 }
 
 impl Fault {
@@ -49,6 +52,7 @@ impl Fault {
             Fault::Double(..) => "double".into(),
             Fault::Kill { after: false, .. } => "killed-before-call".into(),
             Fault::Kill { after: true, .. } => "killed-after-call".into(),
+            Fault::StdoutGone => "stdout-reader-gone".into(),
         }
     }
     fn plan(&self) -> Option<String> {
@@ -77,6 +81,7 @@ impl Fault {
             Fault::DestIsDir => J::obj().set("kind", "dest_is_dir"),
             Fault::Double(a, b) => J::obj().set("kind", "double").set("a", a.to_json()).set("b", b.to_json()),
             Fault::Kill { at, after } => J::obj().set("kind", "kill").set("at", *at).set("after", *after),
+            Fault::StdoutGone => J::obj().set("kind", "stdout_gone"),
         }
     }
     fn from_json(j: &J) -> Option<Fault> {
@@ -101,6 +106,7 @@ impl Fault {
             },
             "missing_dir" => Fault::MissingDir,
             "dest_is_dir" => Fault::DestIsDir,
+            "stdout_gone" => Fault::StdoutGone,
             "kill" => Fault::Kill {
                 at: at()?,
                 after: j.get_bool("after").unwrap_or(false),
@@ -338,7 +344,36 @@ fn compile_once(setup: &Setup, fault: &Fault) -> (Option<(String, String)>, Proc
             _ => None,
         },
     };
-    let proc_ = run_lace(&scratch, &run);
+    let proc_ = if matches!(fault, Fault::StdoutGone) {
+        // Under the call scheduler: when the process parks at its first file-system call the
+        // first status line has been printed and read; then the reader leaves
+        let spec = crate::world_gate::GatedSpec {
+            args: run.args.clone(),
+            plan: String::new(),
+            stdout_reader_leaves: true,
+        };
+        let watch = run.watch.unwrap_or(&scratch.dir).to_path_buf();
+        match crate::world_gate::run_gated(&scratch, &watch, run.cwd, &[spec], &mut |parked| parked[0], &mut |_, _| {}) {
+            Ok(exits) => Proc {
+                status: exits[0].status,
+                signal: exits[0].signal,
+                stdout: Vec::new(),
+                stderr: exits[0].stderr.clone(),
+                hang: false,
+                shim_log: vec!["F stdout reader gone".to_string()],
+            },
+            Err(_) => Proc {
+                status: None,
+                signal: None,
+                stdout: Vec::new(),
+                stderr: Vec::new(),
+                hang: true,
+                shim_log: Vec::new(),
+            },
+        }
+    } else {
+        run_lace(&scratch, &run)
+    };
     if proc_.hang {
         return (Some((format!("C08/{}/hang", fault.name()), "compile did not end within 20 s".into())), proc_);
     }
@@ -433,6 +468,7 @@ fn sweep(setup: &Setup, rng: &mut Rng, doubles: usize) -> Vec<Fault> {
         faults.push(Fault::Kill { at: *j, after: false });
         faults.push(Fault::Kill { at: *j, after: true });
     }
+    faults.push(Fault::StdoutGone);
     faults.push(Fault::Errno { at: 1, errno: 13 });
     faults.push(Fault::Errno { at: 1, errno: 24 });
     let full_len = setup.full.as_ref().map(|f| f.len()).unwrap_or(64) as u64;
@@ -723,7 +759,7 @@ impl Check for C08 {
         out
     }
     fn rule(&self) -> String {
-        "Scenario = (program, destination pre-state absent/present, fault). Programs: generated valid programs, half of them with one out-of-range label reference planted at a random statement k (9-, 10- and 11-bit fields; a .blkw pad pushes the target out of reach) so that everything before k emits and k fails. For every program the single-fault space is swept completely: no fault; for every mutating file-system call j = 1..J of a fault-free run of the same scenario (J measured through the shim): ENOSPC, EIO, EINTR one-shot, sticky ENOSPC, short write of 1 byte, write of 0 bytes; EACCES and EMFILE on the first call; destination /dev/full; RLIMIT_FSIZE at every byte 0..length with SIGXFSZ ignored (a genuine short write followed by EFBIG); destination inside a missing directory; destination is a directory; every third program also 6 random double faults. Every fourth program (destination absent or pre-existing) is also compiled by two processes at once to the same destination, the second one from a source one word longer (one time in four: the same source): the shim parks every mutating call of both processes until the harness grants it, so the harness decides the interleaving - all 20 interleavings of open/write/rename x open/write/rename, plus 10 seeded interleavings with one failing call (ENOSPC, EIO or EINTR at call 1..3 of one process). Whenever a process has exited (the other parked or gone) and at the end, the destination must be the old state or a complete object of either writer, and a complete one after an exit with status 0. Faults are addressed by ordinal of mutating call, so the plan stays meaningful for implementations that buffer or use a temporary file plus rename. Oracle per process: (exit status 0 and destination == complete object) or (status != 0 and destination as before: absent, previous bytes, still the device node, still the directory); a panic counts as non-zero. evaluations counts programs; `processes` in other_counters counts fault runs. Non-trivial: a sweep of at least 2 faults; distinct = distinct (program, object length, failing stage, number of faults).".into()
+        "Scenario = (program, destination pre-state absent/present, fault). Programs: generated valid programs, half of them with one out-of-range label reference planted at a random statement k (9-, 10- and 11-bit fields; a .blkw pad pushes the target out of reach) so that everything before k emits and k fails. For every program the single-fault space is swept completely: no fault; for every mutating file-system call j = 1..J of a fault-free run of the same scenario (J measured through the shim): ENOSPC, EIO, EINTR one-shot, sticky ENOSPC, short write of 1 byte, write of 0 bytes, the process killed (SIGKILL) right before call j, the process killed right after call j; the reader of standard output gone once the first status line has been read (`lace compile ... | head -1`, made deterministic by the call scheduler: the reader leaves when the process parks at its first file-system call); EACCES and EMFILE on the first call; destination /dev/full; RLIMIT_FSIZE at every byte 0..length with SIGXFSZ ignored (a genuine short write followed by EFBIG); destination inside a missing directory; destination is a directory; every third program also 6 random double faults. Every fourth program (destination absent or pre-existing) is also compiled by two processes at once to the same destination, the second one from a source one word longer (one time in four: the same source): the shim parks every mutating call of both processes until the harness grants it, so the harness decides the interleaving - all 20 interleavings of open/write/rename x open/write/rename, plus 10 seeded interleavings with one failing call (ENOSPC, EIO or EINTR at call 1..3 of one process). Whenever a process has exited (the other parked or gone) and at the end, the destination must be the old state or a complete object of either writer, and a complete one after an exit with status 0. Faults are addressed by ordinal of mutating call, so the plan stays meaningful for implementations that buffer or use a temporary file plus rename. Oracle per process: (exit status 0 and destination == complete object) or (status != 0 and destination as before: absent, previous bytes, still the device node, still the directory); a panic counts as non-zero; a killed process has no status to be consistent with, so after a crash the destination must be the old state or the complete new file, never anything in between. evaluations counts programs; `processes` in other_counters counts fault runs. Non-trivial: a sweep of at least 2 faults; distinct = distinct (program, object length, failing stage, number of faults).".into()
     }
     fn assumptions(&self) -> Vec<String> {
         vec![
@@ -752,6 +788,7 @@ impl Check for C08 {
             "fault:rlimit-fsize",
             "fault:missing-dir",
             "fault:dest-is-dir",
+            "fault:stdout-reader-gone",
             "fault:killed-before-call",
             "fault:killed-after-call",
             "fault:two_writers_interleaving",
@@ -846,10 +883,12 @@ fn two_writers(setup: &Setup, program: &Program, seed: u64, only: Option<&J>, re
             GatedSpec {
                 args: args_a,
                 plan: plan_a.clone(),
+                stdout_reader_leaves: false,
             },
             GatedSpec {
                 args: args_b,
                 plan: plan_b.clone(),
+                stdout_reader_leaves: false,
             },
         ];
         let classify = |dest: &std::path::Path| -> (&'static str, bool) {
